@@ -174,6 +174,14 @@ def r01a(ctx):
                         key = next(((k.qual, pc) for pc in pcs if (k.qual, pc) in R01A_TABLE), None)
                         if key:
                             break
+                if key is None and "_parameters" not in c.members:
+                    # the rule was hoisted into an abstract base (no parameters of its own): the table must cover every
+                    # concrete class that inherits THIS definition
+                    heirs = [k for k in model.subclasses(c, strict=True) if k.provider(fn.name) is not None and k.provider(fn.name).node is fn and "_parameters" in k.members]
+                    for pc in pcs:
+                        if heirs and all((k.qual, pc) in R01A_TABLE or any((b.qual, pc) in R01A_TABLE for b in k.mro if b is not c and b in heirs) for k in heirs):
+                            key = (heirs[0].qual, pc)
+                            break
                 if key:
                     ctx.exempt(cid, loc, R01A_TABLE[key])
                 else:
